@@ -226,3 +226,24 @@ def run(ck):
             rel_ok = True
     ck.ob("C14-R5", "checkIdlePeers/408-then-release", bool(sends) and rel_ok, sends[0].loc if sends else cip.loc, cip,
           "send(Request_Timeout).then(release, release) for every idle peer")
+
+    # ---------------- R1 (the measured buffer only shrinks when the message is over) ----------------
+    # the limit test in feed() measures bytes.size(): that is the size of the request so far only if nothing but reset() (and the
+    # constructors) ever removes bytes from the buffer
+    nsh = 0
+    for fn_ in prog.funcs.values():
+        if not fn_.cls or strip_tmpl(fn_.cls) != "Pistache::ArrayStreamBuf" or fn_.d.get("ctor"):
+            continue
+        for fld_, how, ev in lib.direct_writes(fn_):
+            if not strip_tmpl(fld_).endswith("ArrayStreamBuf::bytes"):
+                continue
+            grows = how in ("call:back_inserter", "call:inserter", "call:push_back", "call:insert", "call:emplace_back", "call:append", "call:reserve")
+            if grows:
+                continue
+            nsh += 1
+            ok_ = fn_.base.rsplit("::", 1)[1] == "reset"
+            ck.ob("C14-R1", "ArrayStreamBuf::%s/%s-on-the-measured-buffer" % (fn_.base.rsplit("::", 1)[1], how.replace("call:", "")), ok_, ev.loc, fn_,
+                  "the buffer is emptied by reset() only" if ok_ else
+                  "%s removes bytes from the buffer between two feeds of the same message: the size limit, measured on bytes.size(), then "
+                  "counts per read instead of per request" % fn_.base.rsplit("::", 1)[1])
+    ck.require(nsh >= 1, "no shrinking write to ArrayStreamBuf::bytes found (reset() vanished?)")
